@@ -135,3 +135,39 @@ Proof.
   exists p3_root_answer, p3_tree, p3_root, (fault_at 0 FtNaNData).
   split; [vm_compute; reflexivity|]. vm_compute. repeat split.
 Qed.
+
+(* ---- plan 4: two entity fetches at the same object both select the object field p; subgraph s1
+   answers p:null (with an error), s2 answers an object.  MergeValues(null, object) fails, so when
+   s1 is merged first the whole request fails (no response at all); in the other order it succeeds. ---- *)
+Definition p4_f0 := single_fetch 0 "s0" "{a{__typename id}}".
+Definition p4_f1 := entity_fetch 1 "s1" "{_entities(r:[" ["a"] [0] (rep_of []).
+Definition p4_f2 := entity_fetch 2 "s2" "{_entities(q:[" ["a"] [0] (rep_of []).
+Definition p4_tree (first_null : bool) : ftree :=
+  if first_null then FTSeq [FTSingle p4_f0; FTSingle p4_f1; FTSingle p4_f2] else FTSeq [FTSingle p4_f0; FTSingle p4_f2; FTSingle p4_f1].
+Definition p4_kind (id : N) : fkind := match id with 0 => FSingle | _ => FEntity end.
+Definition p4_root : node :=
+  NObj [] false (bs "Query") [] [] false
+    [Fld (bs "a") None None None (NObj [bs "a"] true (bs "A") [] [] false
+       [Fld (bs "p") None None None (NObj [bs "p"] true (bs "B") [] [] false
+          [Fld (bs "x") None None None (NStr [bs "x"] true); Fld (bs "y") None None None (NStr [bs "y"] true)])])].
+Definition p4_root_answer (id : N) : json * list json := (JObj [(bs "a", ent "1")], []).
+Definition p4_answer (id : N) (rep : bytes) : json * list json :=
+  match id with
+  | 1 => (JObj [(bs "__typename", JStr (bs "A")); (bs "p", JNull)], [JObj [(bs "message", JStr (bs "boom"))]])
+  | _ => (JObj [(bs "__typename", JStr (bs "A")); (bs "p", JObj [(bs "y", JStr (bs "why"))])], [])
+  end.
+Definition p4_out (first_null : bool) : outcome :=
+  finish p4_root (run p4_answer p4_root_answer p4_kind no_faults (p4_tree first_null)).
+
+Lemma merge_order_refuted_proof :
+  exists answer root_answer kind_of t1 t2 root,
+    root_wf root = true /\
+    fetches_of t1 = [p4_f0; p4_f1; p4_f2] /\ fetches_of t2 = [p4_f0; p4_f2; p4_f1] /\   (* same fetches, the two independent ones swapped *)
+    o_failed (finish root (run answer root_answer kind_of no_faults t1)) = true /\
+    let o := finish root (run answer root_answer kind_of no_faults t2) in
+    o_failed o = false /\ List.map le_kind (o_lerrors o) = [LE_FETCH] /\
+    r_data (o_resolved o) = bs "{""a"":{""p"":{""x"":null,""y"":""why""}}}".
+Proof.
+  exists p4_answer, p4_root_answer, p4_kind, (p4_tree true), (p4_tree false), p4_root.
+  vm_compute. repeat split.
+Qed.
